@@ -753,6 +753,10 @@ class Interp:
             if self.ctx.branch(PV.is_PList(v.t), 'islist@%s' % line):
                 return PV.litems(v.t)
             self.raise_py('TypeError', 'not a sequence', line)
+        if isinstance(v, pv.VKeys):
+            return pv.members_facts(self.ctx, v.arr, False)
+        if isinstance(v, pv.VSet) and v.symbolic:
+            return pv.members_facts(self.ctx, v.to_arr(), True)
         raise Unsupported('not a sequence: %r' % (v,))
 
     # ------------------------------------------------------------------ attributes
